@@ -83,7 +83,25 @@ func RenderInstant(t time.Time, rng *rand.Rand) string {
 	return base + frac + off
 }
 
-var malformedTimes = []string{"not-a-time", "2031-05-06", "2031-05-06T07:08:09", "06/05/2031 07:08", "2031-05-06T07:08:09+0530", "2031-05-06 07:08:09Z"}
+// malformedTimes: strings that are not RFC 3339 date-times. Besides plainly wrong shapes they include near misses
+// of an instant an hour AFTER every clock used here (a field out of range, a missing or damaged zone), so that a
+// parser that "repairs" them yields a bound that has not been reached. Candidates that Go's own RFC 3339 parser
+// accepts are dropped at start-up (what counts as parsable is then beyond doubt).
+var malformedTimes = func() []string {
+	cands := []string{"not-a-time", "2031-05-06", "2031-05-06T07:08:09", "06/05/2031 07:08", "2031-05-06T07:08:09+0530", "2031-05-06 07:08:09Z", "",
+		"2031-05-06T08:60:00Z", "2031-05-06T08:60:00.5Z", "2031-05-06T08:60:00+02:00", "2031-05-06T24:00:00Z", "2031-05-06T25:08:09Z",
+		"2031-13-06T08:08:09Z", "2031-00-06T08:08:09Z", "2031-05-32T08:08:09Z", "2031-02-30T08:08:09Z", "2031-05-00T08:08:09Z",
+		"2031-05-06T08:08:61Z", "2031-5-6T8:8:9Z", "31-05-06T08:08:09Z", "+2031-05-06T08:08:09Z", "2031-05-06T08:08:09ZZ",
+		"2031-05-06T08:08:09Z junk", "2031-05-06T08:08:09+02:00:00", "2031-05-06T08:08:09+2", "2031-05-06T08:08:09.Z",
+		"2031-05-06T08:08Z", "2031-05-06T08Z", "20310506T080809Z", "2031-05-06T08:08:09 +02:00", "２０３１-05-06T08:08:09Z", "2031-05-06T08:08:09\u2212" + "02:00"}
+	var out []string
+	for _, c := range cands {
+		if _, err := time.Parse(time.RFC3339, c); err != nil {
+			out = append(out, c)
+		}
+	}
+	return out
+}()
 
 func renderTV(v tv, rng *rand.Rand) *string {
 	switch v.K {
@@ -92,7 +110,14 @@ func renderTV(v tv, rng *rand.Rand) *string {
 	case "malformed":
 		return idp.S(malformedTimes[rng.Intn(len(malformedTimes))])
 	case "ancient":
-		return idp.S([]string{"0001-01-01T00:00:00Z", "0001-01-01T00:00:00.000Z", "0001-01-01T00:00:00+00:00", "0001-01-01T05:30:00+05:30"}[rng.Intn(4)])
+		// well-formed instants before every clock: Go's zero time and years on either side of what fits into 64-bit nanoseconds
+		anc := []string{"0001-01-01T00:00:00Z", "0001-01-01T00:00:00.000Z", "0001-01-01T00:00:00+00:00", "0001-01-01T05:30:00+05:30",
+			"1500-01-01T00:00:00Z", "1677-09-21T00:12:43Z", "1677-09-21T00:12:44Z", "1066-10-14T09:00:00+01:00", "1969-12-31T23:59:59.999999999Z", "1970-01-01T00:00:00Z"}
+		return idp.S(anc[rng.Intn(len(anc))])
+	case "farfuture":
+		// well-formed instants after every clock, on either side of what fits into 64-bit nanoseconds
+		fut := []string{"2262-04-11T23:47:16Z", "2262-04-11T23:47:17Z", "2300-01-01T00:00:00Z", "2554-07-21T23:34:33Z", "9999-12-31T23:59:59Z", "2100-02-28T12:00:00.123456789+14:00"}
+		return idp.S(fut[rng.Intn(len(fut))])
 	}
 	return idp.S(RenderInstant(world.Tick(v.T), rng))
 }
